@@ -150,13 +150,26 @@ func (c *Ctx) Watch(what string, fn func()) watchResult {
 		if spins == 400 || spins%2000 == 1999 {
 			id, _ := gid.Load().(string)
 			if blocked, dump := libGoroutinesAllBlocked(id); id != "" && blocked && !fin.Load() {
-				// confirm on a second snapshot (the call might have just completed)
-				if blocked2, _ := libGoroutinesAllBlocked(id); blocked2 && !fin.Load() {
+				// A deadlock is a stable state: confirm it on further snapshots, letting the scheduler run in
+				// between (a goroutine waiting for a mutex that a runtime or harness goroutine holds looks
+				// parked as well, but only for a moment).  Time is used to confirm stability, never as a deadline.
+				stable := true
+				for k := 0; k < 4 && stable; k++ {
+					for j := 0; j < 20; j++ {
+						runtime.Gosched()
+					}
+					time.Sleep(5 * time.Millisecond)
+					if b2, _ := libGoroutinesAllBlocked(id); !b2 || fin.Load() {
+						stable = false
+					}
+				}
+				if stable {
 					res.Deadlocked = true
 					res.Dump = dump
 					c.Count("deadlock_states_observed", 1)
 					return res
 				}
+				c.Count("transient_all_parked_states", 1)
 			}
 		}
 		if spins > 200_000_000 {
